@@ -762,7 +762,8 @@ func (c *Ctx) ruleR08d(rule string) {
 			if helperReturnsNilFirst(c, r.Results[0]) {
 				continue // the result of a no-match helper: no node
 			}
-			ctor, ok := ssax.Strip(r.Results[0]).(*ssa.Call)
+			node0 := c.throughPassingHelper(r.Results[0])
+			ctor, ok := ssax.Strip(node0).(*ssa.Call)
 			if !ok || ctor.Call.StaticCallee() == nil {
 				c.R.Undecided(rule, name+" node shape", name, c.P.InstrPos(r), "returned node is not a constructor call")
 				continue
@@ -830,4 +831,48 @@ func helperReturnsNilFirst(c *Ctx, v ssa.Value) bool {
 		}
 	}
 	return len(rets) > 0
+}
+
+// throughPassingHelper: v is result #i of a library helper that returns one of its parameters in that position on
+// every path (matched(node) = (node, EmptyIntSet, nil)): the argument handed in.
+func (c *Ctx) throughPassingHelper(v ssa.Value) ssa.Value {
+	for depth := 0; depth < 3; depth++ {
+		e, ok := v.(*ssa.Extract)
+		if !ok {
+			return v
+		}
+		cl, ok := e.Tuple.(*ssa.Call)
+		if !ok {
+			return v
+		}
+		h := cl.Call.StaticCallee()
+		if h == nil || cl.Call.IsInvoke() || !c.P.InLib(h) || len(h.Blocks) == 0 {
+			return v
+		}
+		k := -1
+		for _, r := range ssax.Returns(h) {
+			if e.Index >= len(r.Results) {
+				return v
+			}
+			p, isP := ssax.Strip(r.Results[e.Index]).(*ssa.Parameter)
+			if !isP {
+				return v
+			}
+			idx := -1
+			for i, hp := range h.Params {
+				if hp == p {
+					idx = i
+				}
+			}
+			if idx < 0 || k >= 0 && k != idx {
+				return v
+			}
+			k = idx
+		}
+		if k < 0 || k >= len(cl.Call.Args) {
+			return v
+		}
+		v = cl.Call.Args[k]
+	}
+	return v
 }
